@@ -121,7 +121,10 @@ pub fn stops_of(src: &SrcSpec) -> (&[Stop], u8) {
     }
 }
 
-pub fn check(c: &Case) -> CheckResult {
+pub const DRIFT_KEY: &str = "C12-fixed-point-matrix-drift";
+
+/// `drift_open`: the known finding DRIFT_KEY is open (far pixels are judged with the widened window on t)
+pub fn check_with(c: &Case, drift_open: bool) -> CheckResult {
     let mut o = Outcome::new();
     o.fp = fp_of(c);
     let Some(inv) = xf_inverse64(&c.ctm) else { return Err("HARNESS: singular CTM".into()) };
@@ -280,7 +283,18 @@ pub fn check(c: &Case) -> CheckResult {
                     continue;
                 }
             }
-            let e = 3.0 / 255.0 + if widen { t.abs() / 255.0 } else { 0.0 } + 1e-4;
+            let e0 = 3.0 / 255.0 + if widen { t.abs() / 255.0 } else { 0.0 } + 1e-4;
+            // Known finding DRIFT_KEY: the device-to-gradient matrix is held in 16.16 fixed point, each entry off by
+            // up to half a unit, so the parameter drifts by up to (|x| + |y|) 2^-17 with the distance from the
+            // surface's origin; beyond a few hundred pixels that exceeds the statement's 3/255. While the finding
+            // is open, a pixel more than 256 px out that fails the stated window is judged with the window widened
+            // by (|x| + |y| + 2) 2^-16 and counted; anything beyond that is still a violation.
+            let drift = (px as f64 + py as f64 + 2.0) / 65536.0;
+            let attempts: &[f64] = if drift_open && px + py >= 256 { &[0.0, 1.0] } else { &[0.0] };
+            let mut verdict: Result<(), String> = Ok(());
+            let mut apex = false;
+            for (ai, extra) in attempts.iter().enumerate() {
+            let e = e0 + extra * drift;
             let (lo, hi) = (t - e, t + e);
             // two-circle: when the tolerance window on t reaches parameters whose circle has a negative
             // radius (the pixel sits at the apex of the cone of circles), "no admissible circle" is one of
@@ -288,7 +302,9 @@ pub fn check(c: &Case) -> CheckResult {
             if let SrcSpec::TwoCircle { r1, r2, .. } = &c.src {
                 if (*r1 as f64) + lo * (*r2 as f64 - *r1 as f64) < 0.0 && got[i] == 0 {
                     o.undecided += 1;
-                    continue;
+                    verdict = Ok(());
+                    apex = true;
+                    break;
                 }
             }
             // sample the window: 65 points plus every stop position and spread seam inside it
@@ -347,9 +363,10 @@ pub fn check(c: &Case) -> CheckResult {
                 }
             }
             let g = ch(got[i]);
+            let mut this: Result<(), String> = Ok(());
             for k in 0..4 {
                 if (g[k] as f64) < cmin[k] - 4.0 || (g[k] as f64) > cmax[k] + 4.0 {
-                    return Err(format!(
+                    this = Err(format!(
                         "{} gradient (spread {}, alpha {}): pixel ({},{}) has t = {:.4}; channel {} of {} is outside [{:.1}, {:.1}] +- 4, the range of the gradient colour for t within {:.4} of it",
                         c.src.kind(),
                         spread,
@@ -363,8 +380,29 @@ pub fn check(c: &Case) -> CheckResult {
                         cmax[k],
                         e
                     ));
+                    break;
                 }
             }
+            match this {
+                Ok(()) => {
+                    if ai > 0 {
+                        o.excluded_known += 1;
+                    }
+                    verdict = Ok(());
+                    break;
+                }
+                Err(m) => {
+                    if ai == 0 {
+                        verdict = Err(m);
+                    }
+                }
+            }
+            }
+            verdict?;
+            if apex {
+                continue;
+            }
+            let e = e0;
             o.judged += 1;
             if spread == 0 {
                 if t < -4.0 / 255.0 - e {
@@ -386,7 +424,7 @@ pub fn check(c: &Case) -> CheckResult {
                 let i = (py * c.w + px) as usize;
                 let user = to_grad(xf_apply64(&inv, (px as f64 + 0.5, py as f64 + 0.5)));
                 if let Some(t) = param(&c.src, user) {
-                    let e = 3.0 / 255.0 + if widen { t.abs() / 255.0 } else { 0.0 } + 1e-4;
+                    let e = 3.0 / 255.0 + if widen { t.abs() / 255.0 } else { 0.0 } + 1e-4 + if drift_open && px + py >= 256 { (px as f64 + py as f64 + 2.0) / 65536.0 } else { 0.0 };
                     if let SrcSpec::Sweep { .. } = &c.src {
                         continue;
                     }
@@ -429,6 +467,7 @@ pub fn check(c: &Case) -> CheckResult {
     o.class_if(tmin < 0.0, "t<0-seen");
     o.class_if(tmax > 1.0, "t>1-seen");
     o.class_if(a255 < 255.0, "alpha<1");
+    o.class_if(c.w.max(c.h) >= 600, "long-strip-with-slowly-varying-linear-gradient");
     o.class_if(c.own.is_some(), "own-transform-in-the-variant");
     if let SrcSpec::TwoCircle { r1, .. } = &c.src {
         o.class_if(*r1 == 0.0, "twocircle:focal-point");
@@ -460,7 +499,9 @@ fn probe_stops() -> BoxedStrategy<Vec<Stop>> {
 pub fn strategy(ctx: &Ctx) -> BoxedStrategy<Case> {
     let ctx = ctx.clone();
     let alpha_open = ctx.excluded("C12-gradient-alpha-squared");
-    (4i32..=24, 4i32..=24)
+    // one case in thirty is a long strip (600..2048 px) carrying a linear gradient whose parameter changes very slowly
+    // along it: a short gradient tilted a fraction of a degree off the strip's normal, or one 6000..11000 px long
+    prop_oneof![29 => (4i32..=24, 4i32..=24), 1 => prop_oneof![(prop::sample::select(vec![600i32, 1000, 1500, 2048]), 1i32..=2), (1i32..=2, prop::sample::select(vec![600i32, 1000, 1500, 2048]))]]
         .prop_flat_map(move |(w, h)| {
             let ext = w.max(h) as f32;
             let src = (gradient_src(&ctx, ext), prop::option::weighted(0.4, probe_stops())).prop_map(|(mut g, probe)| {
@@ -472,6 +513,27 @@ pub fn strategy(ctx: &Ctx) -> BoxedStrategy<Case> {
                 }
                 g
             });
+            let src = if w.max(h) >= 600 {
+                let horizontal = w > h;
+                (src, prop_oneof![0.004f32..0.06, -0.06f32..-0.004], 8.0f32..40.0, any::<bool>(), 3000.0f32..3900.0, 3000.0f32..3900.0)
+                    .prop_map(move |(g, eps, len, long, fa, fb)| {
+                        let (stops, spread) = match &g {
+                            SrcSpec::Linear { stops, spread, .. } | SrcSpec::Radial { stops, spread, .. } | SrcSpec::TwoCircle { stops, spread, .. } | SrcSpec::Sweep { stops, spread, .. } => (stops.clone(), *spread),
+                            _ => unreachable!(),
+                        };
+                        if long {
+                            // corner to corner of the working range
+                            SrcSpec::Linear { stops, spread, x0: -fa, y0: -fb * 0.3, x1: fb, y1: fa * 0.3 }
+                        } else if horizontal {
+                            SrcSpec::Linear { stops, spread, x0: 5.0, y0: -len / 2.0, x1: 5.0 + eps, y1: len / 2.0 }
+                        } else {
+                            SrcSpec::Linear { stops, spread, x0: -len / 2.0, y0: 5.0, x1: len / 2.0, y1: 5.0 + eps }
+                        }
+                    })
+                    .boxed()
+            } else {
+                src.boxed()
+            };
             let alpha = if alpha_open { Just(1.0f32).boxed() } else { prop_oneof![3 => Just(1.0f32), 1 => Just(0.5f32), 2 => 0.0f32..=1.0].boxed() };
             // zoom: the same picture described in user units that are `zoom` times smaller under a CTM that is
             // `zoom` times larger (a drawing in metres shown at 1:4096, or in device-independent units at 1/64)
@@ -554,11 +616,12 @@ pub fn strategy(ctx: &Ctx) -> BoxedStrategy<Case> {
 
 pub fn property(ctx: &Ctx) -> Property {
     let c = ctx.clone();
+    let drift_open = ctx.excluded(DRIFT_KEY);
     Property {
         id: "C12",
         rule: "cases: linear (extent >= 1 px), radial (r >= 1), two-circle (first circle strictly inside the second) and sweep gradients built with the Source::new_* constructors, a quarter of them with a further invertible transform of their own composed into the public Source variant by hand (elliptical radial gradients, sheared sweeps; the oracle maps the pixel centre through the inverse CTM and then through that transform); 1-5 stops at strictly increasing positions (gaps >= 0.02, ends not necessarily 0/1) with random unpremultiplied colours or probe ramps; Pad/Repeat/Reflect; global alpha; identity or any invertible CTM (one in twelve anisotropic, one axis stretched 10..40 times more than the other, looking at a place 1000..3900 device px from the user-space origin along the other axis), optionally with user space zoomed (units 256, 4096 or 65536 times smaller, or 64 times larger, under a correspondingly scaled CTM); 4..24 px surfaces, rendered with a full-surface Src fill (in half of the cases after an empty layer group or a clear under a clip that come between set_transform and the draw; and again, Src and SrcOver, through a pixel-aligned clip path that cuts off the first columns: same colours inside, nothing outside; and once more with SrcOver into a layer group pushed under an offset clip rectangle, whose origin differs from the surface's). Oracle: f64 parameter t per pixel centre (through the inverse CTM) by the statement's definitions, colour = piecewise-linear interpolation of the unpremultiplied stops after the spread map, premultiplied and scaled by alpha; every channel must lie within 4/255 of the range that colour takes for t within 3/255 (+|t|/255 for two-circle and sweep) of the pixel's t; Pad pixels beyond an end all show one identical colour; two-circle pixels without admissible circle are transparent. Non-trivial: >=3 distinct colours on the surface and t spanning >= 0.25; distinct by hash of the case.",
         assumptions: vec!["sweep pixels within 1.5 px of the centre or within 0.75 px of the angle-0 ray are not judged (angle discontinuity inside the pixel)"],
-        parts: vec![part("render", 60_000, 1_000_000, move || strategy(&c), check)],
+        parts: vec![part("render", 60_000, 1_000_000, move || strategy(&c), move |k| check_with(k, drift_open))],
         min_class_fraction: vec![("render", "src:linear", 0.15), ("render", "src:radial", 0.15), ("render", "src:twocircle", 0.15), ("render", "src:sweep", 0.15), ("render", "spread:reflect", 0.2), ("render", "t>1-seen", 0.3), ("render", "t<0-seen", 0.1), ("render", "linear:horizontal-right-to-left", 0.005), ("render", "linear:vertical", 0.01), ("render", "twocircle:focal-point", 0.02), ("render", "twocircle:centres-share-one-coordinate", 0.03), ("render", "ctm-scale>=1000", 0.05), ("render", "own-transform-in-the-variant", 0.1), ("render", "anisotropic-ctm-far-from-the-user-origin", 0.04)],
         panic_is_violation: false,
     }
